@@ -73,7 +73,18 @@ func (p *Peer) Connect(maxWait time.Duration) bool {
 	}
 	deadline := time.Now().Add(maxWait)
 	for {
-		if d := p.W.TakeDialled(); len(d) > 0 {
+		d := p.W.TakeDialled()
+		// connections the engine has already given up on (its logon attempt timed out while nobody
+		// answered) are not connections any more
+		var live []*simnet.Endpoint
+		for _, o := range d {
+			if o.IsClosed() {
+				continue
+			}
+			live = append(live, o)
+		}
+		d = live
+		if len(d) > 0 {
 			p.EP = d[len(d)-1]
 			for _, o := range d[:len(d)-1] {
 				o.FeedEOF(nil)
